@@ -13,7 +13,7 @@ RULE = (
     "workplaces of any capacity, conveyor input links, facility sets, both workplace priority rules, all task "
     "rules) and profile N (one level of nesting in assembly form: every task of a parent component FS-follows every "
     "task of its children; parents carry an unfinished task and a workplace that can always take them; no conveyor "
-    "links). Components may carry several tasks in any dependency relation. Oracle at every step, on the "
+    "links), plus a conveyor profile (workplaces chained by input links, each component's tasks targeted by successive workplaces). Components may carry several tasks in any dependency relation. Oracle at every step, on the "
     "live snapshots and the logs: workplace contents <=> component placement (hence <= 1 workplace per component); "
     "sum of space sizes of the top-most placed components <= capacity + 1e-8; a component entering a workplace "
     "with declared inputs comes from one of them or from nowhere; <= 1 move per step (every placement assignment "
@@ -60,7 +60,7 @@ def nested_outside_profile_n(spec):
             return True  # deeper than one level (D-PLC2)
     if any(wp["inputs"] for wp in spec["wps"]):
         return True  # D-PLC3
-    reach = gen.fs_reach(spec)
+    reach = gen.fs_reach(spec, strict=True)
     by_comp = {}
     for i, t in enumerate(spec["tasks"]):
         if t.get("comp") is not None:
@@ -124,11 +124,53 @@ def _case(draw, cfg):
     return spec
 
 
+CFG_CONV = CFG_F.copy(min_tasks=3, max_tasks=7, max_comps=3, max_wps=4, p_auto=0, servable=0, kinds=[0, 0, 0, 1])
+
+
+@st.composite
+def _conveyor(draw, cfg):
+    """Flat products on a conveyor: workplaces chained by input links, the tasks of each component are facility
+    tasks targeted by successive workplaces, so that components actually hop (and compete for small workplaces)."""
+    spec = draw(gen.model_spec(cfg))
+    nw = len(spec["wps"])
+    if nw < 2 or not spec["comps"]:
+        return spec
+    n = len(spec["tasks"])
+    for i, wp in enumerate(spec["wps"]):
+        wp["inputs"] = [i - 1] if i > 0 else []
+        wp["targets"] = []
+        wp.pop("notask", None)
+    # one skilled facility per workplace at least
+    for i in range(nw):
+        if not any(f["wp"] == i for f in spec["facs"]):
+            spec["facs"].append({"wp": i, "cost": 1.0, "solo": False, "skills": {}, "abs": []})
+    pos = {}
+    for ti, t in enumerate(spec["tasks"]):
+        if t.get("comp") is None:
+            t["comp"] = ti % len(spec["comps"])
+        t["auto"] = False
+        t["nf"] = True
+        t["fixf"] = None
+        k = pos.get(t["comp"], draw(st.integers(0, 1)))
+        w = min(k, nw - 1)
+        pos[t["comp"]] = k + 1
+        spec["wps"][w]["targets"].append(ti)
+        for f in spec["facs"]:
+            if f["wp"] == w:
+                f["skills"][str(ti)] = 1.0
+    for w in spec["workers"]:
+        w["fsk"] = {str(k): 1.0 for k in range(len(spec["facs"]))}
+        for ti in range(n):
+            w["skills"].setdefault(str(ti), 1.0)
+    gen.chain_components(spec)
+    return spec
+
+
 def strategy(tier):
     if tier == "quick":
-        return st.one_of(_case(CFG_F), _case(CFG_F), _case(CFG_N))
+        return st.one_of(_case(CFG_F), _case(CFG_F), _case(CFG_N), _conveyor(CFG_CONV))
     big = dict(max_tasks=10, max_comps=6)
-    return st.one_of(_case(CFG_F.copy(**big)), _case(CFG_F.copy(**big)), _case(CFG_N.copy(**big)))
+    return st.one_of(_case(CFG_F.copy(**big)), _case(CFG_F.copy(**big)), _case(CFG_N.copy(**big)), _conveyor(CFG_CONV.copy(max_tasks=10, max_comps=4)))
 
 
 def budget(tier):
